@@ -33,8 +33,14 @@ def main():
             dest[f] = m.group(1)
         else:
             m = re.search(r"(\S+/)" + re.escape(f), demo_txt)
+            m2 = re.search(re.escape(f) + r"\s*(?:goes|belongs|is placed|lives)?\s*(?:in|into|under)\s+`?(\S+?/)`?[\s(,.]", demo_txt)
+            m3 = re.search(r"(?:in|into|under|to)\s+`?((?:[\w.-]+/)+)`?\s", demo_txt)
             if m and not m.group(1).startswith("/"):
                 dest[f] = m.group(1) + f
+            elif m2:
+                dest[f] = m2.group(1) + f
+            elif m3 and len(demos) == 1:
+                dest[f] = m3.group(1) + f
     missing = [f for f in demos if f not in dest]
     if missing:
         print("cannot tell where to put", missing, "- demo.txt:", demo_txt[:300])
